@@ -6,8 +6,9 @@
 import PonyVerif.Gen.Limit
 import PonyVerif.Py.Lemmas
 import PonyVerif.Lemmas.Limit
+import PonyVerif.Lemmas.Aggr
 namespace PonyVerif.Props.C24
-open PonyVerif.Py PonyVerif.Gen PonyVerif.Model.Limit
+open PonyVerif.Py PonyVerif.Gen PonyVerif.Model.Limit PonyVerif.Model.Aggr
 
 /-- encoding of an optional non-negative integer as a Python value -/
 def encN : Option Nat → PyVal
@@ -95,6 +96,83 @@ theorem C24_first (R : List α) : firstViaLimit R = R.head? := by
 /-- ordering a result (any comparison function, merge sort) only permutes it. -/
 theorem C24_order_permutes (R : List α) (le : α → α → Bool) : (R.mergeSort le).Perm R :=
   List.mergeSort_perm R le
+
+
+/-! ### aggregates, DISTINCT, first(), bulk delete — list semantics of the full result `R` / the projected column -/
+
+/-- `distinct()` returns every value of the result exactly once (set semantics), and is the identity on a result without duplicates. -/
+theorem C24_distinct (col : List Int) :
+    (dedup col).Nodup ∧ (∀ x, x ∈ dedup col ↔ x ∈ col) ∧ (col.Nodup → dedup col = col) :=
+  ⟨nodup_dedup col, mem_dedup col, dedup_of_nodup col⟩
+
+/-- `distinct()` is idempotent. -/
+theorem C24_distinct_idem (col : List Int) : dedup (dedup col) = dedup col :=
+  dedup_of_nodup _ (nodup_dedup col)
+
+/-- `count(distinct=False)` is Python's `len` of the non-missing values; `count()` / `count(distinct=True)` on a scalar
+    projection is `len(set(...))`; the three flags are told apart exactly by the default `None ↦ True`. -/
+theorem C24_count (col : List (Option Int)) :
+    ponyCount col (some false) = (nonNull col).length ∧
+    ponyCount col (some true) = (dedup (nonNull col)).length ∧
+    ponyCount col none = ponyCount col (some true) := by
+  simp [ponyCount, sqlCount, operand]
+
+/-- the default and the explicit `distinct=False` count differ as soon as a value repeats (so they must not share a cache entry). -/
+theorem C24_count_flags_differ (col : List (Option Int)) (h : ¬ (nonNull col).Nodup) :
+    ponyCount col none < ponyCount col (some false) := by
+  simp only [ponyCount, sqlCount, operand, Option.getD]
+  simp
+  have hsub : ∀ l : List Int, (dedup l).length ≤ l.length := by
+    intro l; induction l with
+    | nil => simp [dedup]
+    | cons y ys ih => unfold dedup; split <;> simp <;> omega
+  have hlt : ∀ l : List Int, ¬ l.Nodup → (dedup l).length < l.length := by
+    intro l; induction l with
+    | nil => intro h; simp at h
+    | cons y ys ih =>
+      intro hn
+      unfold dedup
+      split
+      · have := hsub ys; simp; omega
+      · rename_i hy
+        have : ¬ ys.Nodup := by
+          intro hys; exact hn (List.nodup_cons.mpr ⟨fun hm => hy ((mem_dedup ys y).mpr hm), hys⟩)
+        have := ih this; simp; omega
+  exact hlt _ h
+
+/-- `sum()` is Python's `sum` over the non-missing values (0 for none); with `distinct=True` over the set of values. -/
+theorem C24_sum (col : List (Option Int)) :
+    ponySum col false = (nonNull col).sum ∧ ponySum col true = (dedup (nonNull col)).sum := by
+  constructor <;> (simp only [ponySum, sqlSum, operand]; split <;> simp_all)
+
+/-- `min()` / `max()` are Python's `min` / `max` over the non-missing values, `None` when there is none. -/
+theorem C24_min_max (col : List (Option Int)) :
+    (sqlMin col = none ↔ nonNull col = []) ∧ (sqlMax col = none ↔ nonNull col = []) ∧
+    (∀ m, sqlMin col = some m → m ∈ nonNull col ∧ ∀ x ∈ nonNull col, m ≤ x) ∧
+    (∀ m, sqlMax col = some m → m ∈ nonNull col ∧ ∀ x ∈ nonNull col, x ≤ m) := by
+  refine ⟨by simp [sqlMin], by simp [sqlMax], ?_, ?_⟩
+  · intro m h
+    exact List.min?_eq_some_iff.mp (by simpa [sqlMin] using h)
+  · intro m h
+    exact List.max?_eq_some_iff.mp (by simpa [sqlMax] using h)
+
+/-- `first()` returns the first element of the ordered result, `None` for an empty one. -/
+theorem C24_first_ordered (R : List α) (le : α → α → Bool) : firstOrdered R le = (R.mergeSort le).head? := by
+  unfold firstOrdered; cases R.mergeSort le <;> simp
+
+/-- bulk delete removes exactly the rows the query selects, keeps all others (in order), and reports how many it removed. -/
+theorem C24_bulk_delete (rows : List α) (sel : α → Bool) :
+    (∀ r, r ∈ (bulkDelete rows sel).1 ↔ (r ∈ rows ∧ sel r = false)) ∧
+    (bulkDelete rows sel).2 + (bulkDelete rows sel).1.length = rows.length := by
+  constructor
+  · intro r; simp [bulkDelete]
+  · simp only [bulkDelete]
+    induction rows with
+    | nil => simp
+    | cons x xs ih => cases h : sel x <;> simp [List.filter, h] <;> omega
+
+example : ponyCount [some 3, none, some 3, some 5] none = 2 ∧ ponyCount [some 3, none, some 3, some 5] (some false) = 3 := by decide
+example : ponySum [some 3, none, some 3] true = 3 ∧ ponySum [none] false = 0 := by decide
 
 /-! ### non-vacuity: concrete instances -/
 example : window (combineT (some 5) (some 1) (some 2) (some 3)) [0,1,2,3,4,5,6,7,8,9] = [4, 5] := by decide
